@@ -1,6 +1,6 @@
 (** Proofs about the middleware chains (property C19). *)
 From Coq Require Import List Bool Arith Lia.
-From KV Require Import Base Chain.
+From KV Require Import Base Chain ChainSyn Lts.
 Import ListNotations.
 
 Section ChainProofs.
@@ -306,4 +306,518 @@ Section ChainProofs.
         cbn [is_enter is_ret] in H. rewrite !count_cons. cbn [is_enter is_ret b2n].
         destruct (Nat.eqb i j); cbn [b2n] in *; lia.
   Qed.
+
+  (** ** Uniform middlewares: the number of executions is the product of the call counts. *)
+  Lemma exec_count_uniform (f : event -> bool) i (p : prog) (next : kont) k a :
+    calls_exactly k p ->
+    (forall c m s, exists r s' t, next c m s = (Ok r, s', t) /\ count f t = a) ->
+    (forall r, f (EvBack i r) = false) -> (forall r, f (EvRet i r) = false) ->
+    forall s, exists r s' t, exec i p next s = (Ok r, s', t) /\ count f t = k * a.
+  Proof.
+    intros Hp Hn Hb Hr. induction Hp as [r0|k c m kk Hk IH|k kk Hk IH|k s0 kk Hk IH]; intros s; cbn [exec].
+    - exists r0, s, [EvRet i r0]. split; [reflexivity|]. rewrite count_cons, count_nil, Hr. reflexivity.
+    - destruct (Hn c m s) as (r1 & s1 & t1 & En & Hc). rewrite En.
+      destruct (IH r1 s1) as (r2 & s2 & t2 & Ek & Hc2). rewrite Ek.
+      exists r2, s2, (t1 ++ EvBack i r1 :: t2). split; [reflexivity|].
+      rewrite count_app, count_cons, Hb, Hc, Hc2. cbn [b2n]. lia.
+    - apply IH.
+    - apply IH.
+  Qed.
+
+  Lemma spec_product (core : C -> M -> St -> res R * St) (stages : list stage) (ns : list nat) :
+    Forall2 (fun (st : stage) k => forall c m, calls_exactly k (st c m)) stages ns ->
+    (forall c m s, exists r, fst (core c m s) = Ok r) ->
+    forall i j, j <= length stages ->
+    forall c m s, exists r s' t,
+      spec_from i stages (core_kont core) c m s = (Ok r, s', t) /\
+      count (starts (i + length stages) (i + j)) t = product (firstn j ns).
+  Proof.
+    intros Hu Hcore. induction Hu as [|st k rest ns' Hst Hrest IH]; intros i j Hj c m s; cbn [spec_from length] in *.
+    - assert (j = 0) by lia. subst j. unfold core_kont. destruct (Hcore c m s) as [r Hr].
+      destruct (core c m s) as [o s1]. cbn [fst] in Hr. subst o.
+      exists r, s1, [EvCore c m]. split; [reflexivity|].
+      rewrite !Nat.add_0_r, count_cons, count_nil, starts_core, Nat.ltb_irrefl. reflexivity.
+    - replace (i + S (length rest)) with (S i + length rest) by lia.
+      destruct j as [|j'].
+      + (* position i itself: once *)
+        destruct (exec_count_uniform never i (st c m) (spec_from (S i) rest (core_kont core)) k 0 (Hst c m)) with (s := s)
+          as (r & s1 & t1 & Ex & _).
+        * intros c' m' s0. destruct (IH (S i) 0 ltac:(lia) c' m' s0) as (r0 & s0' & t0 & E0 & _).
+          exists r0, s0', t0. split; [exact E0 | apply count_never].
+        * reflexivity.
+        * reflexivity.
+        * unfold invoke. rewrite Ex. exists r, s1, (EvEnter i c m :: t1). split; [reflexivity|].
+          assert (Hrun : spec_from i (st :: rest) (core_kont core) c m s = (Ok r, s1, EvEnter i c m :: t1))
+            by (cbn [spec_from]; unfold invoke; rewrite Ex; reflexivity).
+          destruct (spec_counts core (st :: rest) i c m s r s1 _ Hrun) as (H1 & _).
+          cbn [length] in H1. replace (i + S (length rest)) with (S i + length rest) in H1 by lia.
+          rewrite Nat.add_0_r. exact H1.
+      + set (n := S i + length rest).
+        destruct (exec_count_uniform (starts n (S i + j')) i (st c m) (spec_from (S i) rest (core_kont core)) k
+                    (product (firstn j' ns')) (Hst c m)) with (s := s) as (r & s1 & t1 & Ex & Hc).
+        * intros c' m' s0. exact (IH (S i) j' ltac:(lia) c' m' s0).
+        * intros r0. apply starts_back.
+        * intros r0. apply starts_ret.
+        * unfold invoke. rewrite Ex. exists r, s1, (EvEnter i c m :: t1). split; [reflexivity|].
+          replace (i + S j') with (S i + j') by lia.
+          rewrite count_cons, starts_enter.
+          replace (Nat.eqb i (S i + j')) with false by (symmetry; apply Nat.eqb_neq; lia).
+          rewrite andb_false_r. cbn [b2n firstn product fold_right]. fold (product (firstn j' ns')). lia.
+  Qed.
+
+  (** ** The small-step machine computes the reference semantics. *)
+  Notation cfg := (cfg C M R St).
+
+  Definition lands (k : cfg) (o : res R) (stk : list (nat * (R -> prog))) (s : St) (t : list event) : Prop :=
+    match o with
+    | Ok r => k = Build_cfg (Retn r) stk s t
+    | Panic => k_ctl k = Dead /\ k_state k = s /\ k_trace k = t
+    | _ => False
+    end.
+
+  Lemma run_steps_stuck mws core n (k : cfg) : step1 mws core k = None -> run_steps mws core n k = k.
+  Proof. intros H. destruct n; cbn [run_steps]; [reflexivity | rewrite H; reflexivity]. Qed.
+
+  Lemma run_steps_add mws core a : forall b (k : cfg),
+    run_steps mws core (a + b) k = run_steps mws core b (run_steps mws core a k).
+  Proof.
+    induction a as [|a IH]; intros b k; cbn [Nat.add run_steps]; [reflexivity|].
+    destruct (step1 mws core k) as [k'|] eqn:E; [apply IH|].
+    symmetry. apply run_steps_stuck. exact E.
+  Qed.
+
+  Lemma run_steps_one mws core (k k' : cfg) n : step1 mws core k = Some k' ->
+    run_steps mws core (S n) k = run_steps mws core n k'.
+  Proof. intros H. cbn [run_steps]. rewrite H. reflexivity. Qed.
+
+  Section Machine.
+    Variable mws : list stage.
+    Variable core : C -> M -> St -> res R * St.
+    Let corek := core_kont core.
+
+    Definition enter_ok (i : nat) : Prop :=
+      forall c m stk s t o s' tr,
+        spec_from i (skipn i mws) corek c m s = (o, s', tr) -> good o ->
+        exists n, lands (run_steps mws core n (enter mws core i c m stk s t)) o stk s' (t ++ tr).
+
+    Lemma machine_exec i : enter_ok (S i) ->
+      forall (p : prog) stk s t o s' tr,
+        exec i p (spec_from (S i) (skipn (S i) mws) corek) s = (o, s', tr) -> good o ->
+        exists n, lands (run_steps mws core n (Build_cfg (Run i p) stk s t)) o stk s' (t ++ tr).
+    Proof.
+      intros Hen. induction p as [r|c m k IH|k IH|s0 k IH|]; intros stk s t o s' tr He Hg; cbn [exec] in He.
+      - injection He as <- <- <-. exists 1. cbn. reflexivity.
+      - destruct (spec_from (S i) (skipn (S i) mws) corek c m s) as [[o1 s1] t1] eqn:En.
+        assert (Hstep : step1 mws core (Build_cfg (Run i (Call c m k)) stk s t)
+                        = Some (enter mws core (i + 1) c m ((i, k) :: stk) s t)) by reflexivity.
+        rewrite Nat.add_1_r in Hstep.
+        destruct o1 as [r1| | |].
+        + destruct (exec i (k r1) (spec_from (S i) (skipn (S i) mws) corek) s1) as [[o2 s2] t2] eqn:Ek.
+          injection He as <- <- <-.
+          destruct (Hen c m ((i, k) :: stk) s t (Ok r1) s1 t1 En I) as [n1 H1]. cbn [lands] in H1.
+          destruct (IH r1 stk s1 ((t ++ t1) ++ [EvBack i r1]) o2 s2 t2 Ek Hg) as [n2 H2].
+          exists (S (n1 + 1 + n2)). rewrite (run_steps_one _ _ _ _ _ Hstep).
+          rewrite !run_steps_add, H1.
+          replace (run_steps mws core 1 (Build_cfg (Retn r1) ((i, k) :: stk) s1 (t ++ t1)))
+            with (Build_cfg (Run i (k r1)) stk s1 ((t ++ t1) ++ [EvBack i r1])) by reflexivity.
+          replace (t ++ t1 ++ EvBack i r1 :: t2) with (((t ++ t1) ++ [EvBack i r1]) ++ t2)
+            by (rewrite <- !app_assoc; reflexivity).
+          exact H2.
+        + injection He as <- <- <-. destruct Hg.
+        + injection He as <- <- <-.
+          destruct (Hen c m ((i, k) :: stk) s t Panic s1 t1 En I) as [n1 H1].
+          exists (S n1). rewrite (run_steps_one _ _ _ _ _ Hstep). exact H1.
+        + injection He as <- <- <-. destruct Hg.
+      - destruct (IH s stk s t o s' tr He Hg) as [n Hn]. exists (S n).
+        rewrite (run_steps_one _ _ (Build_cfg (Run i (Get k)) stk s t) (Build_cfg (Run i (k s)) stk s t)) by reflexivity.
+        exact Hn.
+      - destruct (IH stk s0 t o s' tr He Hg) as [n Hn]. exists (S n).
+        rewrite (run_steps_one _ _ (Build_cfg (Run i (Put s0 k)) stk s t) (Build_cfg (Run i k) stk s0 t)) by reflexivity.
+        exact Hn.
+      - injection He as <- <- <-. exists 1. cbn. repeat split.
+    Qed.
+
+    Lemma machine_enter : forall d i, length mws - i = d -> i <= length mws -> enter_ok i.
+    Proof.
+      induction d as [|d IH]; intros i Hd Hi c m stk s t o s' tr Hs Hg.
+      - (* i = length mws: the innermost handler *)
+        assert (i = length mws) by lia. subst i.
+        rewrite skipn_all in Hs. cbn [spec_from] in Hs. unfold corek, core_kont in Hs.
+        unfold enter. rewrite (proj2 (nth_error_None mws (length mws)) (le_n _)).
+        destruct (core c m s) as [o1 s1]. injection Hs as <- <- <-.
+        exists 0. destruct o1; cbn [good] in Hg; try destruct Hg; cbn; repeat split.
+      - assert (Hlt : i < length mws) by lia.
+        destruct (nth_error_lt_some mws i Hlt) as [mdl Hm].
+        rewrite (nth_error_skipn mws i mdl Hm) in Hs. cbn [spec_from] in Hs. unfold invoke in Hs.
+        destruct (exec i (mdl c m) (spec_from (S i) (skipn (S i) mws) corek) s) as [[o1 s1] t1] eqn:Ex.
+        injection Hs as <- <- <-.
+        assert (Hen : enter_ok (S i)) by (apply IH; lia).
+        destruct (machine_exec i Hen (mdl c m) stk s (t ++ [EvEnter i c m]) o1 s1 t1 Ex Hg) as [n Hn].
+        exists n. unfold enter. rewrite Hm.
+        replace (t ++ EvEnter i c m :: t1) with ((t ++ [EvEnter i c m]) ++ t1) by (rewrite <- app_assoc; reflexivity).
+        exact Hn.
+    Qed.
+
+    Lemma lands_outcome (k : cfg) o s t : lands k o [] s t -> outcome_of k = Some (o, s, t).
+    Proof.
+      destruct o; cbn [lands]; intros H.
+      - subst k. reflexivity.
+      - destruct H.
+      - destruct H as (H0 & H1 & H2). unfold outcome_of. rewrite H0. subst. reflexivity.
+      - destruct H.
+    Qed.
+
+    Theorem machine_correct c m s : returns_or_panics core ->
+      exists n, outcome_of (run_steps mws core n (start mws core c m s)) = Some (run_spec mws core c m s).
+    Proof.
+      intros Hc. pose proof (run_spec_good mws core c m s Hc) as Hg.
+      destruct (run_spec mws core c m s) as [[o s'] tr] eqn:Er. cbn [fst] in Hg.
+      destruct (machine_enter (length mws) 0 ltac:(lia) ltac:(lia) c m [] s [] o s' tr Er Hg) as [n Hn].
+      exists n. apply lands_outcome. exact Hn.
+    Qed.
+
+    Lemma outcome_stuck (k : cfg) out : outcome_of k = Some out -> step1 mws core k = None.
+    Proof.
+      unfold outcome_of, step1. destruct (k_ctl k) as [i p|r|]; [discriminate| |reflexivity].
+      destruct (k_stack k); [reflexivity | discriminate].
+    Qed.
+
+    (** Sequential reachability of one request. *)
+    Inductive sreach (k0 : cfg) : cfg -> Prop :=
+    | sreach_refl : sreach k0 k0
+    | sreach_step : forall k k', sreach k0 k -> step1 mws core k = Some k' -> sreach k0 k'.
+
+    Lemma sreach_run_steps k0 k : sreach k0 k -> exists n, run_steps mws core n k0 = k.
+    Proof.
+      induction 1 as [|k k' Hr [n IH] Hs].
+      - exists 0. reflexivity.
+      - exists (n + 1). rewrite run_steps_add, IH. cbn [run_steps]. rewrite Hs. reflexivity.
+    Qed.
+
+    Lemma final_unique k0 n1 n2 out1 out2 :
+      outcome_of (run_steps mws core n1 k0) = Some out1 ->
+      outcome_of (run_steps mws core n2 k0) = Some out2 -> out1 = out2.
+    Proof.
+      intros H1 H2.
+      assert (Hle : forall a b o1 o2, a <= b ->
+                outcome_of (run_steps mws core a k0) = Some o1 ->
+                outcome_of (run_steps mws core b k0) = Some o2 -> o1 = o2).
+      { intros a b o1 o2 Hab Ha Hb. replace b with (a + (b - a)) in Hb by lia.
+        rewrite run_steps_add in Hb. rewrite (run_steps_stuck _ _ _ _ (outcome_stuck _ _ Ha)) in Hb.
+        congruence. }
+      destruct (Nat.le_ge_cases n1 n2) as [H|H].
+      - eapply Hle; eassumption.
+      - symmetry. eapply Hle; eassumption.
+    Qed.
+
+    (** One step of the interleaving moves exactly one request by one of its own steps. *)
+    Lemma par_steps_pointwise (ks ks' : list cfg) :
+      In ks' (par_steps mws core ks) -> Forall2 (fun k k' => k' = k \/ step1 mws core k = Some k') ks ks'.
+    Proof.
+      revert ks'. induction ks as [|k rest IH]; intros ks' Hin; cbn [par_steps] in Hin; [destruct Hin|].
+      apply in_app_or in Hin. destruct Hin as [Hin|Hin].
+      - destruct (step1 mws core k) as [k'|] eqn:E; [|destruct Hin].
+        destruct Hin as [<-|[]]. constructor; [right; exact E|].
+        clear. induction rest; constructor; [left; reflexivity | assumption].
+      - apply in_map_iff in Hin. destruct Hin as (tl & <- & Htl).
+        constructor; [left; reflexivity | apply IH; exact Htl].
+    Qed.
+
+    Lemma Forall2_nth {A B} (P : A -> B -> Prop) l1 l2 : Forall2 P l1 l2 ->
+      forall j a b, nth_error l1 j = Some a -> nth_error l2 j = Some b -> P a b.
+    Proof.
+      induction 1 as [|x y l1 l2 Hxy Hl IH]; intros [|j] a b Ha Hb; cbn in *; try discriminate.
+      - injection Ha as <-. injection Hb as <-. exact Hxy.
+      - eapply IH; eassumption.
+    Qed.
+
+    Lemma par_reach_sreach ks0 ks : reachable (par_steps mws core) ks0 ks -> Forall2 sreach ks0 ks.
+    Proof.
+      induction 1 as [|ks ks' Hr IH Hin].
+      - induction ks0; constructor; [apply sreach_refl | assumption].
+      - apply par_steps_pointwise in Hin. clear Hr. revert ks' Hin.
+        induction IH as [|k0 k l0 l Hk Hl IHl]; intros ks' Hin; inversion Hin as [|? k' ? l' Hkk Hll]; subst; constructor.
+        + destruct Hkk as [->|Hs]; [exact Hk | eapply sreach_step; eassumption].
+        + apply IHl. exact Hll.
+    Qed.
+
+    (** Requests in flight over the same middleware slice, interleaved in any way: a
+        request that has finished has delivered exactly what the reference semantics
+        says for it alone. *)
+    Theorem concurrent_requests_independent (reqs : list (C * M * St)) ks :
+      returns_or_panics core ->
+      reachable (par_steps mws core) (map (fun q => start mws core (fst (fst q)) (snd (fst q)) (snd q)) reqs) ks ->
+      forall j q k out, nth_error reqs j = Some q -> nth_error ks j = Some k -> outcome_of k = Some out ->
+        out = run_spec mws core (fst (fst q)) (snd (fst q)) (snd q).
+    Proof.
+      intros Hc Hr j q k out Hq Hk Ho.
+      pose proof (par_reach_sreach _ _ Hr) as HF.
+      pose proof (Forall2_nth _ _ _ HF j _ k (map_nth_error _ j reqs Hq) Hk) as Hs.
+      destruct (sreach_run_steps _ _ Hs) as [n1 H1].
+      destruct (machine_correct (fst (fst q)) (snd (fst q)) (snd q) Hc) as [n2 H2].
+      rewrite <- H1 in Ho. exact (final_unique _ _ _ _ _ Ho H2).
+    Qed.
+
+    (** No deadlock: while some request is unfinished, some step is possible. *)
+    Lemma unfinished_steps (k : cfg) : outcome_of k = None -> exists k', step1 mws core k = Some k'.
+    Proof.
+      unfold outcome_of, step1. destruct (k_ctl k) as [i p|r|]; [intros _| |discriminate].
+      - destruct p; eexists; reflexivity.
+      - destruct (k_stack k) as [|[i kk] stk]; [discriminate | intros _; eexists; reflexivity].
+    Qed.
+
+    Theorem concurrent_progress (ks : list cfg) j k :
+      nth_error ks j = Some k -> outcome_of k = None -> par_steps mws core ks <> [].
+    Proof.
+      revert j. induction ks as [|k0 rest IH]; intros [|j] Hk Ho; cbn in Hk; try discriminate; cbn [par_steps].
+      - injection Hk as ->. destruct (unfinished_steps k Ho) as [k' Hs]. rewrite Hs. discriminate.
+      - specialize (IH j Hk Ho). destruct (par_steps mws core rest) as [|x xs]; [contradiction|].
+        destruct (step1 mws core k0); discriminate.
+    Qed.
+  End Machine.
 End ChainProofs.
+
+(** * The wrappers of the two server chains. *)
+Section WrapperProofs.
+  Variables C M St P E : Type.
+  Notation gstage := (stage C M (gores P E) St).
+
+  Theorem server_chain_correct (nbc : C -> M -> C) (me : C -> M -> E -> P) (mws : list gstage) core c req s :
+    run_impl_server nbc me mws core c req s = run_spec_server nbc me mws core c req s.
+  Proof. unfold run_impl_server, run_spec_server. rewrite server_chain_run. reflexivity. Qed.
+
+  Theorem item_chain_correct (itf : M -> P) (ie : P -> E -> P) (en : E) (mws : list gstage) core c bi s :
+    run_impl_item itf ie en mws core c bi s = run_spec_item itf ie en mws core c bi s.
+  Proof. unfold run_impl_item, run_spec_item. rewrite item_chain_run. reflexivity. Qed.
+
+  Lemma run_items_ext (run1 run2 : C -> M -> St -> res P * St * list (event C M (gores P E))) :
+    (forall c m s, run1 c m s = run2 c m s) ->
+    forall c items s, run_items run1 c items s = run_items run2 c items s.
+  Proof.
+    intros H c items. induction items as [|bi rest IH]; intros s; cbn [run_items]; [reflexivity|].
+    rewrite H. destruct (run2 c bi s) as [[o s1] t1]. destruct o; try reflexivity.
+    rewrite IH. reflexivity.
+  Qed.
+
+  Theorem batch_items_correct (itf : M -> P) (ie : P -> E -> P) (en : E) (mws : list gstage) core c items s :
+    run_items (run_impl_item itf ie en mws core) c items s = run_items (run_spec_item itf ie en mws core) c items s.
+  Proof. apply run_items_ext. intros. apply item_chain_correct. Qed.
+
+  (** The tail of executeItemWithMiddleware never dereferences nil, whatever pair the chain returns. *)
+  Theorem execute_item_result_total (itf : M -> P) (ie : P -> E -> P) (en : E) bi (r : gores P E) :
+    exists p, execute_item_result itf ie en bi (Ok r) = Ok p.
+  Proof.
+    destruct r as [[p|] [e|]]; cbn; eexists; reflexivity.
+  Qed.
+
+  Theorem handle_request_result_total (me : C -> M -> E -> P) c' req (r : gores P E) :
+    exists x, handle_request_result me c' req (Ok r) = Ok x.
+  Proof. destruct r as [p [e|]]; cbn; eexists; reflexivity. Qed.
+
+  (** Before the fix: a middleware returning (nil, err) made the tail panic. *)
+  Lemma unguarded_item_result_panics (ie : P -> E -> P) (bi : M) (e : E) :
+    execute_item_result_unguarded ie bi (Ok (None, Some e)) = Panic.
+  Proof. reflexivity. Qed.
+
+  Lemma server_outcome (nbc : C -> M -> C) (me : C -> M -> E -> P) (mws : list gstage) core c req s :
+    returns_or_panics core ->
+    match fst (fst (run_impl_server nbc me mws core c req s)) with Ok _ => True | Panic => True | _ => False end.
+  Proof.
+    intros Hc. rewrite server_chain_correct. unfold run_spec_server.
+    pose proof (run_spec_good _ _ _ _ mws core (nbc c req) req s Hc) as Hg.
+    destruct (run_spec mws core (nbc c req) req s) as [[o s1] t1]. cbn [fst] in *.
+    destruct o as [[p [e|]]| | |]; cbn; try exact I; exact Hg.
+  Qed.
+
+  Lemma item_outcome (itf : M -> P) (ie : P -> E -> P) (en : E) (mws : list gstage) core c bi s :
+    returns_or_panics core ->
+    match fst (fst (run_impl_item itf ie en mws core c bi s)) with Ok _ => True | Panic => True | _ => False end.
+  Proof.
+    intros Hc. rewrite item_chain_correct. unfold run_spec_item.
+    pose proof (run_spec_good _ _ _ _ mws core c bi s Hc) as Hg.
+    destruct (run_spec mws core c bi s) as [[o s1] t1]. cbn [fst] in *.
+    destruct o as [r| | |]; try exact Hg.
+    destruct (execute_item_result_total itf ie en bi r) as [p Hp]. rewrite Hp. exact I.
+  Qed.
+
+  Lemma server_ok (nbc : C -> M -> C) (me : C -> M -> E -> P) (mws : list gstage) core c req s :
+    Forall (fun st : gstage => forall c m, crash_free (st c m)) mws ->
+    (forall c m s, exists r, fst (core c m s) = Ok r) ->
+    exists x, fst (fst (run_impl_server nbc me mws core c req s)) = Ok x.
+  Proof.
+    intros Hs Hc. rewrite server_chain_correct. unfold run_spec_server.
+    destruct (run_spec_ok _ _ _ _ mws core (nbc c req) req s Hs Hc) as [r Hr].
+    destruct (run_spec mws core (nbc c req) req s) as [[o s1] t1]. cbn [fst] in *. subst o.
+    apply handle_request_result_total.
+  Qed.
+
+  Lemma item_ok (itf : M -> P) (ie : P -> E -> P) (en : E) (mws : list gstage) core c bi s :
+    Forall (fun st : gstage => forall c m, crash_free (st c m)) mws ->
+    (forall c m s, exists r, fst (core c m s) = Ok r) ->
+    exists p, fst (fst (run_impl_item itf ie en mws core c bi s)) = Ok p.
+  Proof.
+    intros Hs Hc. rewrite item_chain_correct. unfold run_spec_item.
+    destruct (run_spec_ok _ _ _ _ mws core c bi s Hs Hc) as [r Hr].
+    destruct (run_spec mws core c bi s) as [[o s1] t1]. cbn [fst] in *. subst o.
+    apply execute_item_result_total.
+  Qed.
+End WrapperProofs.
+
+(** * Refutation of the unrepaired code (pinned tree): concrete witnesses. *)
+Definition w_retry : stage unit nat nat unit := fun c m => Call c m (fun _ => Call c m (fun r => Ret r)).
+Definition w_pass : stage unit nat nat unit := fun c m => Call c m (fun r => Ret r).
+Definition w_subst : stage unit nat nat unit := fun c m => Call c (m + 100) (fun r => Ret r).
+Definition w_core : unit -> nat -> unit -> res nat * unit := fun _ m s => (Ok m, s).
+
+(** [retry; pass] under the shared cursor: the second call of next by the retry
+    middleware goes straight to the innermost handler. *)
+Lemma shared_cursor_refuted :
+  let t_cursor := snd (run_cursor true [w_retry; w_pass] w_core tt 5 tt) in
+  let t_spec := snd (run_spec [w_retry; w_pass] w_core tt 5 tt) in
+  count (is_back 0) t_cursor = 2 /\ count (is_enter 1) t_cursor = 1 /\
+  count (is_back 0) t_spec = 2 /\ count (is_enter 1) t_spec = 2 /\
+  run_cursor true [w_retry; w_pass] w_core tt 5 tt <> run_spec [w_retry; w_pass] w_core tt 5 tt.
+Proof. vm_compute. repeat split; discriminate. Qed.
+
+(** The server message chain dropped the message passed to the continuation. *)
+Lemma server_message_refuted :
+  snd (run_cursor false [w_subst] w_core tt 5 tt) = [EvEnter 0 tt 5; EvCore tt 5; EvBack 0 5; EvRet 0 5] /\
+  snd (run_spec [w_subst] w_core tt 5 tt) = [EvEnter 0 tt 5; EvCore tt 105; EvBack 0 105; EvRet 0 105].
+Proof. vm_compute. split; reflexivity. Qed.
+
+(** The programs of the stage syntax are programs: the generated cases are instances. *)
+Theorem generated_cases_agree :
+  (forall chain c m, c_run_client true chain c m = c_run_client false chain c m) /\
+  (forall chain script c m, c_run_server true chain script c m = c_run_server false chain script c m) /\
+  (forall chain script c items, c_run_items true chain script c items = c_run_items false chain script c items).
+Proof.
+  split; [|split].
+  - intros. apply client_chain_correct.
+  - intros. apply server_chain_correct.
+  - intros. apply batch_items_correct.
+Qed.
+
+Lemma retry_example :
+  run_impl_client [w_retry; w_pass] w_core tt 5 tt =
+  (Ok 5, tt, [EvEnter 0 tt 5; EvEnter 1 tt 5; EvCore tt 5; EvBack 1 5; EvRet 1 5; EvBack 0 5;
+              EvEnter 1 tt 5; EvCore tt 5; EvBack 1 5; EvRet 1 5; EvBack 0 5; EvRet 0 5]).
+Proof. vm_compute. reflexivity. Qed.
+
+(** * Statements in the form used by Props/C19.v. *)
+Lemma chains_total :
+  forall (C M St P E : Type) (nbc : C -> M -> C) (me : C -> M -> E -> P)
+         (itf : M -> P) (ie : P -> E -> P) (en : E)
+         (stages : list (stage C M (gores P E) St)) (core : C -> M -> St -> res (gores P E) * St)
+         (ctx : C) (msg : M) (s : St),
+    returns_or_panics core ->
+    match fst (fst (run_impl_client stages core ctx msg s)) with Ok _ => True | Panic => True | _ => False end /\
+    match fst (fst (run_impl_server nbc me stages core ctx msg s)) with Ok _ => True | Panic => True | _ => False end /\
+    match fst (fst (run_impl_item itf ie en stages core ctx msg s)) with Ok _ => True | Panic => True | _ => False end.
+Proof.
+  intros C M St P E nbc me itf ie en stages core ctx msg s H. split; [|split].
+  - rewrite client_chain_correct. exact (run_spec_good _ _ _ _ stages core ctx msg s H).
+  - exact (server_outcome _ _ _ _ _ nbc me stages core ctx msg s H).
+  - exact (item_outcome _ _ _ _ _ itf ie en stages core ctx msg s H).
+Qed.
+
+Lemma chains_never_panic_by_themselves :
+  forall (C M St P E : Type) (nbc : C -> M -> C) (me : C -> M -> E -> P)
+         (itf : M -> P) (ie : P -> E -> P) (en : E)
+         (stages : list (stage C M (gores P E) St)) (core : C -> M -> St -> res (gores P E) * St)
+         (ctx : C) (msg : M) (s : St),
+    Forall (fun st => forall c m, crash_free (st c m)) stages ->
+    (forall c m s, exists r, fst (core c m s) = Ok r) ->
+    (exists r, fst (fst (run_impl_client stages core ctx msg s)) = Ok r) /\
+    (exists r, fst (fst (run_impl_server nbc me stages core ctx msg s)) = Ok r) /\
+    (exists r, fst (fst (run_impl_item itf ie en stages core ctx msg s)) = Ok r).
+Proof.
+  intros C M St P E nbc me itf ie en stages core ctx msg s Hs Hc. split; [|split].
+  - rewrite client_chain_correct. exact (run_spec_ok _ _ _ _ stages core ctx msg s Hs Hc).
+  - exact (server_ok _ _ _ _ _ nbc me stages core ctx msg s Hs Hc).
+  - exact (item_ok _ _ _ _ _ itf ie en stages core ctx msg s Hs Hc).
+Qed.
+
+Lemma each_call_runs_the_rest_once :
+  forall (C M R St : Type) (stages : list (stage C M R St)) (core : C -> M -> St -> res R * St)
+         (ctx : C) (msg : M) (s : St) (r : R) (s' : St) (t : list (event C M R)),
+    run_impl_client stages core ctx msg s = (Ok r, s', t) ->
+    let n := length stages in
+    count (starts n 0) t = 1 /\
+    (forall j, j < n -> count (starts n (S j)) t = count (is_back j) t) /\
+    (forall j, count (is_enter j) t = count (is_ret j) t).
+Proof.
+  intros C M R St stages core ctx msg s r s' t H. rewrite client_chain_correct in H.
+  destruct (spec_counts C M R St core stages 0 ctx msg s r s' t H) as (H1 & H2 & _ & H4).
+  cbn [Nat.add] in *. split; [exact H1|]. split; [|exact H4].
+  intros j Hj. apply H2; [apply Nat.le_0_l | exact Hj].
+Qed.
+
+Lemma executions_are_the_product_of_call_counts :
+  forall (C M R St : Type) (stages : list (stage C M R St)) (ns : list nat)
+         (core : C -> M -> St -> res R * St),
+    Forall2 (fun st k => forall c m, calls_exactly k (st c m)) stages ns ->
+    (forall c m s, exists r, fst (core c m s) = Ok r) ->
+    forall j, j <= length stages ->
+    forall ctx msg s, exists r s' t,
+      run_impl_client stages core ctx msg s = (Ok r, s', t) /\
+      count (starts (length stages) j) t = product (firstn j ns).
+Proof.
+  intros C M R St stages ns core Hu Hc j Hj ctx msg s.
+  destruct (spec_product C M R St core stages ns Hu Hc 0 j Hj ctx msg s) as (r & s' & t & H1 & H2).
+  exists r, s', t. split; [rewrite client_chain_correct; exact H1 | exact H2].
+Qed.
+
+Lemma requests_terminate_and_never_block :
+  forall (C M R St : Type) (stages : list (stage C M R St)) (core : C -> M -> St -> res R * St),
+    returns_or_panics core ->
+    (forall ctx msg s, exists n,
+        outcome_of (run_steps stages core n (start stages core ctx msg s)) = Some (run_spec stages core ctx msg s)) /\
+    (forall (ks : list (cfg C M R St)) j k,
+        nth_error ks j = Some k -> outcome_of k = None -> par_steps stages core ks <> []).
+Proof.
+  intros C M R St stages core H. split.
+  - intros ctx msg s. exact (machine_correct C M R St stages core ctx msg s H).
+  - exact (concurrent_progress C M R St stages core).
+Qed.
+
+Lemma product_example :
+  Forall2 (fun st k => forall c m, calls_exactly k (st c m)) [w_retry; w_pass] [2; 1] /\
+  (forall c m s, exists r, fst (w_core c m s) = Ok r) /\ returns_or_panics w_core /\
+  product (firstn 2 [2; 1]) = 2.
+Proof.
+  split; [|split; [|split]].
+  - repeat constructor.
+  - intros c m s. exists m. reflexivity.
+  - intros c m s. exact I.
+  - reflexivity.
+Qed.
+
+Lemma each_call_runs_the_rest_once_server :
+  forall (C M St P E : Type) (nbc : C -> M -> C) (me : C -> M -> E -> P)
+         (itf : M -> P) (ie : P -> E -> P) (en : E)
+         (stages : list (stage C M (gores P E) St)) (core : C -> M -> St -> res (gores P E) * St)
+         (ctx : C) (msg : M) (s : St),
+    let n := length stages in
+    let balanced (t : list (event C M (gores P E))) :=
+      count (starts n 0) t = 1 /\
+      (forall j, j < n -> count (starts n (S j)) t = count (is_back j) t) /\
+      (forall j, count (is_enter j) t = count (is_ret j) t) in
+    (forall x, fst (fst (run_impl_server nbc me stages core ctx msg s)) = Ok x ->
+       balanced (snd (run_impl_server nbc me stages core ctx msg s))) /\
+    (forall x, fst (fst (run_impl_item itf ie en stages core ctx msg s)) = Ok x ->
+       balanced (snd (run_impl_item itf ie en stages core ctx msg s))).
+Proof.
+  intros C M St P E nbc me itf ie en stages core ctx msg s n balanced.
+  assert (Hb : forall c m r s' t, run_spec stages core c m s = (Ok r, s', t) -> balanced t).
+  { intros c m r s' t H.
+    destruct (spec_counts C M (gores P E) St core stages 0 c m s r s' t H) as (H1 & H2 & _ & H4).
+    cbn [Nat.add] in *. split; [exact H1|]. split; [|exact H4].
+    intros j Hj. apply H2; [apply Nat.le_0_l | exact Hj]. }
+  split; intros x Hx.
+  - rewrite server_chain_correct in *. unfold run_spec_server in *.
+    destruct (run_spec stages core (nbc ctx msg) msg s) as [[o s1] t1] eqn:Er. cbn [fst snd] in *.
+    destruct o as [r| | |]; cbn in Hx; try discriminate. eapply Hb. exact Er.
+  - rewrite item_chain_correct in *. unfold run_spec_item in *.
+    destruct (run_spec stages core ctx msg s) as [[o s1] t1] eqn:Er. cbn [fst snd] in *.
+    destruct o as [r| | |]; cbn in Hx; try discriminate. eapply Hb. exact Er.
+Qed.
